@@ -140,6 +140,8 @@ def classify(a):
     if isinstance(a, Str):
         return 'lit:' + a.s
     if isinstance(a, Star):
+        if a.tag.endswith('over pending)') or a.tag.startswith('each(pending'):
+            return 'star:each(pending)'     # the drained pending commands, however the drain loop is written
         return 'star:' + a.tag
     if a is NONE:
         return 'None'
